@@ -215,6 +215,17 @@ impl C16 {
                 _ => cx.rng.usize(1, 40),
             };
             let mut e: Vec<Addr> = (0 .. n).map(|_| gen_addr(&mut cx.rng)).collect();
+            // one host's servers often straddle a page boundary: consecutive pages ending on the same address but for
+            // the port (or the same port on another address) are still progress
+            if let Some(prev) = pages.last().and_then(|p: &Vec<Addr>| p.last()).copied() {
+                if prev != term {
+                    match cx.rng.below(6) {
+                        0 => *e.last_mut().unwrap() = (prev.0, if prev.1 == 65535 { 1 } else { prev.1 + 1 }),
+                        1 => *e.last_mut().unwrap() = (Ipv4Addr::new(prev.0.octets()[0], prev.0.octets()[1], prev.0.octets()[2], prev.0.octets()[3] ^ 1), prev.1),
+                        _ => {}
+                    }
+                }
+            }
             // avoid accidental "no progress" (last == seed) and duplicates of the terminator
             if k + 1 == n_pages {
                 match ending {
